@@ -262,10 +262,13 @@ def _calls_in(prog, q, name):
 
 
 def _closure_args(body, t):
+    """Closures (or plain fn items) handed to a call."""
     out = []
     for o in t.args:
         if o.kind == 'k' and o.const and 'closure' in o.const:
             out.append(o.const['closure'])
+        elif o.kind == 'k' and o.const and 'fn' in o.const:
+            out.append(o.const['fn'])
         elif o.place is not None and o.place.is_local():
             d = body.single_def(o.place.local)
             if d is not None and d[1] != 'term' and d[2].rv.k == 'agg' and d[2].rv.raw.get('ak') == 'closure':
@@ -292,6 +295,9 @@ def _orderkey(ctx, cfg, prog, mod):
                 ctx.ob('ORDERKEY', fq, cfg, False, 'sort call %s without a comparator closure: the key shape is not recognised' % last, site=site)
                 continue
             cq = cmps[0]
+            if cq not in prog.bodies:
+                ctx.ob('ORDERKEY', fq, cfg, False, 'comparator %s is not a function of this crate' % cq, site=site)
+                continue
             cb = prog.bodies[cq]
             fam = _fam(prog, cq)
             has_v = [q for q in fam if _calls_in(prog, q, VCMP)]
